@@ -145,7 +145,7 @@ func (s *JSchema) AddType(name string, sc schema.Schema) (err error) {
 			return kit.NewJSchemaError(typ.File, errs.ErrEmptyType.F(name))
 		}
 
-		s.Inner.AddNamedType(name, typ.Inner, s.File, 0)
+		s.Inner.AddNamedType(name, typ.Inner, typ.File, 0)
 		s.UserTypeCollection[name] = typ
 	case *regex.RSchema:
 		typSc, err := FromRSchema(typ)
@@ -153,7 +153,7 @@ func (s *JSchema) AddType(name string, sc schema.Schema) (err error) {
 			return err
 		}
 
-		s.Inner.AddNamedType(name, typSc.Inner, s.File, 0)
+		s.Inner.AddNamedType(name, typSc.Inner, typSc.File, 0)
 		s.UserTypeCollection[name] = typ
 	default:
 		return errs.ErrRuntimeFailure.F()
